@@ -11,11 +11,15 @@
 (*   Expect(case, form)  the routing-table entry a configuration entry with   *)
 (*                       a given set of options must produce, every field,    *)
 (*                       unspecified options at their documented defaults;    *)
+(*   ExpectAt(l, i, form) the same for entry i of a LIST l of entries of one  *)
+(*                       kind written in one file / one command sequence      *)
+(*                       (section 4): what the entry means on its own;        *)
 (*   Exp(text, 1)        what configuration-file interpolation must turn a    *)
 (*                       text into.                                           *)
 (* The two little state machines below only ENUMERATE the argument space      *)
 (* (option subsets built one option at a time; texts built one token at a     *)
-(* time) so that TLC prints each case together with its expected outcome.     *)
+(* time; lists are enumerated as initial states, systematically or by seeded *)
+(* random draws) so that TLC prints each case with its expected outcome.      *)
 (* The cases are rendered as TOML / command text and loaded by the real code; *)
 (* what the real code built is compared with the record printed here.         *)
 (*                                                                            *)
@@ -488,6 +492,7 @@ OptionStaysInItsEntry == ListMode =>
 \* Values are made distinct per position: a string / integer option of entry i gets value index
 \* k + NVals * (i - 1) (so that an option landing in the wrong entry shows even when both set it),
 \* blacklist lines get a per-position suffix.
+ASSUME NVals * MaxList < 10      \* IntVal: the value index is the last decimal digit, never 0
 Taggable(cc, o) == cc.kind # "rewriter" /\ OptType(cc, o) \in {"str", "int"}
 Retag(cc, i) ==
     [cc EXCEPT !.opts = {IF Taggable(cc, o) THEN [o EXCEPT !.k = @ + NVals * (i - 1)] ELSE o : o \in cc.opts},
@@ -533,18 +538,21 @@ Conflict(o, u) == u # o /\ u.scope = o.scope /\ (u.name = o.name \/ u.name = Oth
 Less(u, o) == u.k < o.k \/ (u.k = o.k /\ u.name = "sub")
 Repair(S) == {o \in S : ~\E u \in S : Conflict(o, u) /\ Less(u, o)}         \* one value per option, sub or substr
 MinI(a, b) == IF a < b THEN a ELSE b
+RandSets(U) ==
+    LET n == IF Cardinality(U) <= RandOpts THEN (Cardinality(U) + 1) \div 2 ELSE RandOpts
+    IN IF Cardinality(U) <= 3 THEN SUBSET U ELSE RandomSetOfSubsets(RandK, n, U)     \* black, rewriter: all subsets
+\* ("substr" rules out the command forms: half of the draws are made without it)
 RandEntries(b) ==
-    LET U == Universe(b)
-        n == IF Cardinality(U) <= RandOpts THEN (Cardinality(U) + 1) \div 2 ELSE RandOpts
-    IN {[b EXCEPT !.opts = Repair(S)] : S \in IF Cardinality(U) <= 3 THEN SUBSET U       \* black, rewriter: all
-                                               ELSE RandomSetOfSubsets(RandK, n, U)}
+    {[b EXCEPT !.opts = Repair(S)] : S \in RandSets(Universe(b)) \cup RandSets({o \in Universe(b) : o.name # "substr"})}
+RECURSIVE Pow(_, _)
+Pow(a, n) == IF n = 0 THEN 1 ELSE a * Pow(a, n - 1)
 RandListsOf(pool, n) ==
-    LET all == [1..n -> pool]
-    IN {[p \in 1..n |-> Retag(f[p], p)] : f \in RandomSubset(MinI(RandN, Cardinality(all)), all)}
+    IF pool = {} THEN {}
+    ELSE {[p \in 1..n |-> Retag(f[p], p)] : f \in RandomSubset(MinI(RandN, Pow(Cardinality(pool), n)), [1..n -> pool])}
 RandLists ==
     IF Mode # "rlists" THEN {}
     ELSE UNION { LET pool == UNION {RandEntries(b) : b \in {b \in Bases : Section(b) = sec}}
-                 IN UNION {RandListsOf(pool, n) : n \in 1..MaxList}
+                 IN UNION {RandListsOf(pool, n) \cup RandListsOf({e \in pool : HasCmd(e)}, n) : n \in 1..MaxList}
                  : sec \in {Section(b) : b \in Bases} }
 
 (***************************************************************************)
